@@ -13,6 +13,7 @@ history:
     ['local', scope_path, e, src_rel, dst_rel]  with machine(<scope>): machine.add_transition(e, src, dst)
 """
 import copy
+import enum
 import functools
 import random
 
@@ -22,9 +23,6 @@ from .helpers11 import (UserValue, make_model, machine_bound, outcome, err_code,
 SEGS = ['A', 'B', 'C', 'P', 'Q', 'a', 'b', 'c', '1', '2', 'x1']
 ROOT_EVENTS = ['go', 'run', 'stop']
 LOCAL_EVENTS = ['mid', 'inner', 'go']
-KNOWN_TRIGGERS_SIG = 'C11.nested.get_triggers.event-declared-locally-on-an-ancestor-inside-a-nested-scope'
-KNOWN_TRANSITIONS_SIG = 'C11.nested.get_transitions.filter-vs-transition-declared-locally-in-a-nested-scope'
-KNOWN_WRAPPER_SIG = 'C11.nested.custom-separator.model-attribute-named-like-a-helper'
 
 
 class HKnobs(object):
@@ -39,6 +37,7 @@ class HKnobs(object):
         self.p_clash = 0.35
         self.p_local = 0.6
         self.max_steps = 8
+        self.p_enum = 0.0          # states given as nested Enum classes (member names shared between levels)
         self.__dict__.update(kw)
 
 
@@ -75,16 +74,33 @@ def node_at(nodes, path):
     return cur
 
 
+ENUM_SEGS = ['IDLE', 'WORK', 'A', 'B', 'RUN', 'done']
+
+
+def gen_enum_tree(rng, kn, depth):
+    """a tree for nested Enum classes: few names, so that member names repeat on different levels"""
+    nodes = []
+    for name in rng.sample(ENUM_SEGS, rng.randint(2, 3)):
+        node = {'name': name, 'children': [], 'parallel': False, 'initial': None, 'local': []}
+        if depth < kn.max_depth and rng.random() < kn.p_children:
+            node['children'] = gen_enum_tree(rng, kn, depth + 1)
+        nodes.append(node)
+    return nodes
+
+
 def gen_case(rng, kn):
-    sep = '_' if rng.random() >= kn.p_custom_sep else rng.choice(['.', '/'])
-    tree = gen_tree(rng, kn, 1, set())
+    is_enum = rng.random() < kn.p_enum
+    sep = '_' if (is_enum or rng.random() >= kn.p_custom_sep) else rng.choice(['.', '/'])
+    tree = gen_enum_tree(rng, kn, 1) if is_enum else gen_tree(rng, kn, 1, set())
+    if is_enum and not any(n['children'] for n in tree):
+        tree[0]['children'] = gen_enum_tree(rng, kn, kn.max_depth)
     paths = all_paths(tree)
-    case = {'kind': 'hsm', 'sep': sep, 'attr': rng.choice(['state', 'state', 'mode']), 'override': rng.random() < kn.p_override,
+    case = {'kind': 'hsm', 'sep': sep, 'enum': is_enum, 'attr': rng.choice(['state', 'state', 'mode']), 'override': rng.random() < kn.p_override,
             'auto': rng.random() < kn.p_auto, 'tree': tree, 'transitions': [], 'models': [], 'ops': []}
     # local transitions: declared in the scope of a compound state, names relative to it
     for p in paths:
         node = node_at(tree, p)
-        if node['children'] and not node['parallel'] and rng.random() < kn.p_local:
+        if node['children'] and not node['parallel'] and not is_enum and rng.random() < kn.p_local:
             below = all_paths(node['children'])
             for _ in range(rng.randint(1, 2)):
                 src = rng.choice(below)
@@ -95,7 +111,9 @@ def gen_case(rng, kn):
         dst = rng.choice(paths) if rng.random() < 0.85 else None
         case['transitions'].append([rng.choice(ROOT_EVENTS), src, dst])
     init_cands = [p for p in paths if not any(node_at(tree, p[:k + 1])['parallel'] for k in range(len(p) - 1))]
-    case['initial'] = rng.choice(init_cands)
+    # (nested Enum machines start in a top-level state: HierarchicalMachine.add_model looks the initial member up by
+    # its NAME only, which is the initial-state business of C13 / C02, not a helper)
+    case['initial'] = rng.choice([p for p in init_cands if len(p) == 1] if is_enum else init_cands)
     n_models = rng.randint(1, 2)
     top = [n['name'] for n in tree]
     for _m in range(n_models):
@@ -130,7 +148,7 @@ def gen_case(rng, kn):
                 ops.append(['fire', m, rng.choice(ROOT_EVENTS + LOCAL_EVENTS)])
         elif r < 0.55:
             ops.append(['to', rng.choice(added), rng.choice(live)])
-        elif r < 0.67:
+        elif r < 0.67 and not is_enum:
             parent = rng.choice([[]] + [p for p in live if len(p) < kn.max_depth])
             sibs = [p[-1] for p in live if p[:-1] == parent]
             cands = [s for s in SEGS if s not in sibs]
@@ -140,7 +158,7 @@ def gen_case(rng, kn):
                 live.append(parent + [name])
         elif r < 0.80:
             ops.append(['trans', rng.choice(ROOT_EVENTS), rng.choice(live), rng.choice(live) if rng.random() < 0.85 else None])
-        elif r < 0.90:
+        elif r < 0.90 and not is_enum:
             scopes = [p for p in live if any(q[:len(p)] == p and len(q) > len(p) for q in live)]
             if scopes:
                 sc = rng.choice(scopes)
@@ -185,11 +203,25 @@ def to_dicts(nodes, sep):
     return out
 
 
+def make_enums(nodes, prefix, registry):
+    """nested Enum classes for a tree: a compound member's value is the Enum class of its children;
+    `registry` maps every member to its path (kept by the harness, independent of the library's lookup)"""
+    members = {}
+    for i, n in enumerate(nodes):
+        members[n['name']] = make_enums(n['children'], prefix + [n['name']], registry) if n['children'] else i + 1
+    cls = enum.Enum('E_' + '_'.join(prefix or ['root']), members)
+    for n in nodes:
+        registry[cls[n['name']]] = prefix + [n['name']]
+    return cls
+
+
 class HRun(object):
     def __init__(self, case):
         self.case = case
         self.sep = case['sep']
         self.attr = case['attr']
+        self.enum_path = {}
+        self.member = {}
         cls = machine_class(self.sep)
         self.error = None
         self.objs, self.originals = {}, {}
@@ -198,13 +230,26 @@ class HRun(object):
         self.registered = []
         self.all_claims = {}
         try:
-            self.machine = cls(model=None, states=to_dicts(case['tree'], self.sep), initial=self.sep.join(case['initial']),
-                               transitions=[[e, self.sep.join(s), None if d is None else self.sep.join(d)]
-                                            for e, s, d in case['transitions']],
+            states = to_dicts(case['tree'], self.sep)
+            initial = self.sep.join(case['initial'])
+            if case.get('enum'):
+                states = make_enums(case['tree'], [], self.enum_path)
+                self.member = {tuple(p): m for m, p in self.enum_path.items()}
+                if len(case['initial']) == 1:
+                    initial = self.member[tuple(case['initial'])]
+            self.machine = cls(model=None, states=states, initial=initial,
+                               transitions=[[e, self.name_or_member(s, i), None if d is None else self.name_or_member(d, i + 1)]
+                                            for i, (e, s, d) in enumerate(case['transitions'])],
                                auto_transitions=case['auto'], model_attribute=case['attr'], model_override=case['override'])
         except BaseException as e:  # noqa
             self.machine = None
             self.error = (type(e).__name__, str(e)[:200])
+
+    def name_or_member(self, path, k=0):
+        """a state as passed to the API: the joined name, or (every other time, for Enum machines) the member"""
+        if self.member and k % 2 == 0:
+            return self.member[tuple(path)]
+        return self.sep.join(path)
 
     def do(self, op):
         m = self.machine
@@ -226,7 +271,7 @@ class HRun(object):
             elif k == 'state':
                 m.add_states(self.sep.join(op[1] + [op[2]]))
             elif k == 'trans':
-                m.add_transition(op[1], self.sep.join(op[2]), None if op[3] is None else self.sep.join(op[3]))
+                m.add_transition(op[1], self.name_or_member(op[2], len(op[1])), None if op[3] is None else self.name_or_member(op[3]))
             elif k == 'local':
                 _k, scope, e, src, dst = op
                 self.local_add(m, scope, e, self.sep.join(src), self.sep.join(dst))
@@ -270,7 +315,13 @@ def flatten(v):
 
 def active_paths(run, obj):
     v = getattr(obj, run.attr)
-    return [(x.name if hasattr(x, 'name') else x).split(run.sep) for x in flatten(v)]
+    out = []
+    for x in flatten(v):
+        if isinstance(x, enum.Enum):
+            out.append(list(run.enum_path.get(x, ['<unknown member %r>' % (x,)])))   # the harness' own member -> path map
+        else:
+            out.append(x.split(run.sep))
+    return out
 
 
 def s_digit(seg):
@@ -291,19 +342,6 @@ def access(obj, names):
             return None
         obj = getattr(obj, n)
     return obj
-
-
-def local_ancestor_decl(tables, p):
-    """the structural condition of the get_triggers finding (mirror of `Helpers.localAncestorDecl`)"""
-    for pre, evs in tables:
-        if not pre or pre != p[:len(pre)] or len(pre) >= len(p):
-            continue
-        rest = p[len(pre):]
-        for _e, srcs in evs:
-            for q in srcs:
-                if q != rest and q == rest[:len(q)] and q:
-                    return True
-    return False
 
 
 def enc_path(p):
@@ -347,7 +385,7 @@ def parse_answer(ans, paths):
     out = []
     for _p in paths:
         d = {'is_access': c.lst(c.name), 'to_access': c.lst(c.name), 'is': bool(c.nat()), 'is_sub': bool(c.nat()),
-             'triggers': c.lst(c.name), 'fires': c.lst(c.name), 'local_anc': bool(c.nat())}
+             'triggers': c.lst(c.name), 'fires': c.lst(c.name)}
         out.append(d)
     if not c.done():
         raise common.MachineryError('c11hsm: trailing output')
@@ -531,15 +569,12 @@ def check_step(run, last_op, pending):
                     r = outcome(twin_m.trigger_event, twin, e)
                     if r != ('raised', 'MachineError'):
                         fires.append(e)
-                anc = local_ancestor_decl(tables, p)
                 ob['triggers'] = sorted(set(listed))
                 ob['fires'] = sorted(fires)
-                ob['local_anc'] = anc
                 if sorted(set(listed)) != sorted(fires):
                     missing = sorted(set(fires) - set(listed))
                     extra = sorted(set(listed) - set(fires))
-                    sig = KNOWN_TRIGGERS_SIG if (anc and not extra) else None
-                    bad('monitor', 'get_triggers-not-exact', sig, path=p, listed=sorted(set(listed)), fire=sorted(fires),
+                    bad('monitor', 'get_triggers-not-exact', None, path=p, listed=sorted(set(listed)), fire=sorted(fires),
                         missing=missing, extra=extra)
             setattr(twin, attr, copy.deepcopy(cur))
     # ---- get_transitions -------------------------------------------------------------------
@@ -567,12 +602,7 @@ def check_step(run, last_op, pending):
                if (src is None or pre + t.source.split(sep) == src) and
                (dst is None or (t.dest is not None and pre + t.dest.split(sep) == dst))]
         if sorted(map(id, got)) != sorted(map(id, exp)):
-            # structural condition of the finding: every transition that is wrongly listed / wrongly left out was
-            # declared locally, in the scope of a nested state
-            local_ids = set(id(t) for pre, _e, t in table if pre)
-            wrong = set(map(id, got)) ^ set(map(id, exp))
-            sig = KNOWN_TRANSITIONS_SIG if wrong and wrong <= local_ids else None
-            bad('monitor', 'get_transitions-filter-not-exact', sig, source=src, dest=dst,
+            bad('monitor', 'get_transitions-filter-not-exact', None, source=src, dest=dst,
                 got=[(t.source, t.dest) for t in got], expected=[(t.source, t.dest) for t in exp])
             break
     pending.append(('c11trans', enc_trans_request(paths, table, sep, queries),
@@ -648,20 +678,28 @@ def wrapper_steps(machine, sep):
     return steps
 
 
-def enc_wrap_request(override, obj, steps):
-    from transitions.extensions.nesting import FunctionWrapper
+def wrapper_names(steps):
     names = []
     for n, _i, _r in steps:
         if n not in names:
             names.append(n)
+    return names
+
+
+def attr_kind(obj, n):
+    """0 missing, 1 the model's own attribute, 2 None, 3 FunctionWrapper"""
+    from transitions.extensions.nesting import FunctionWrapper
+    if not hasattr(obj, n):
+        return 0
+    v = getattr(obj, n)
+    return 3 if isinstance(v, FunctionWrapper) else 2 if v is None else 1
+
+
+def enc_wrap_request(override, obj, steps):
+    names = wrapper_names(steps)
     out = [int(override), len(names)]
     for n in names:
-        if not hasattr(obj, n):
-            k = 0
-        else:
-            v = getattr(obj, n)
-            k = 3 if isinstance(v, FunctionWrapper) else 2 if v is None else 1
-        out += enc_name(n) + [k]
+        out += enc_name(n) + [attr_kind(obj, n)]
     out.append(len(steps))
     for n, i, r in steps:
         out += enc_name(n) + [int(i), int(r)]
@@ -674,12 +712,13 @@ def correspond(kind, obs, ans):
     if kind == 'c11trans':
         return correspond_trans(obs, ans)
     if kind == 'c11wrap':
-        code = {'ok': '0', 'AttributeError': '1', 'AssertionError': '2'}.get(obs['outcome'], '9')
-        return None if ans.strip() == code else ('wrapper_binding', {'impl': obs['outcome'], 'model': ans.strip(), 'op': obs['op']})
+        model = [int(x) for x in ans.split()]
+        return None if model == obs['kinds'] else ('wrapper_binding', {'names': obs['names'], 'impl': obs['kinds'],
+                                                                        'model': model, 'op': obs['op']})
     lean = parse_answer(ans, obs['paths'])
     for p, ob, lp in zip(obs['paths'], obs['per_path'], lean):
         for key, what in (('is_access', 'is_access_names'), ('to_access', 'to_access_names'), ('triggers', 'get_triggers'),
-                          ('fires', 'fires'), ('local_anc', 'local_ancestor_condition')):
+                          ('fires', 'fires')):
             if key in ob:
                 mv = sorted(set(lp[key])) if key in ('triggers', 'fires') else lp[key]
                 if ob[key] != mv:
@@ -696,28 +735,23 @@ def run_case(case):
     facts = {'steps': 0, 'construction_error': 0, 'custom_sep': int(case['sep'] != '_'), 'known': 0, 'fired': 0}
     if run.error:
         facts['construction_error'] = 1
-        return [], facts, pending
+        return [('monitor', 'construction-raises', {'error': run.error}, 'C11.nested.construction-raises')], facts, pending
     fails = []
     for k, op in enumerate(case['ops']):
         wreq = None
         if op[0] == 'model' and case['sep'] != '_' and op[1] not in run.registered:
-            wreq = enc_wrap_request(case['override'], run.objs[op[1]], wrapper_steps(run.machine, case['sep']))
+            wsteps = wrapper_steps(run.machine, case['sep'])
+            wreq = enc_wrap_request(case['override'], run.objs[op[1]], wsteps)
         r = run.do(op)
-        if wreq is not None:
-            pending.append(('c11wrap', wreq, {'outcome': 'ok' if r[0] == 'ok' else r[1], 'op': op}))
+        if wreq is not None and r[0] == 'ok':
+            names = wrapper_names(wsteps)
+            pending.append(('c11wrap', wreq, {'names': names, 'kinds': [attr_kind(run.objs[op[1]], n) for n in names], 'op': op}))
         facts['steps'] += 1
         facts['fired'] += int(r == ('ret', True) or (op[0] == 'to' and r == ('ok',)))
         if r[0] == 'raised' and op[0] in ('model', 'state', 'trans', 'local'):
-            # a valid reconfiguration call must not raise.  Structural condition of the wrapper finding: custom
-            # separator and either a model attribute named like an is_/to_ helper of a top-level state
-            # (`.add` on something that is no FunctionWrapper) or model_override (the wrapper was never bound)
-            specs = [case['models'][i] for i in (run.registered + ([op[1]] if op[0] == 'model' else []))]
-            named = any(n.startswith(('is_', 'to_')) for spec in specs for n, _l, _k in spec)
-            wrapper = case['sep'] != '_' and op[0] in ('model', 'state') and (
-                (r[1] == 'AttributeError' and "'add'" in r[2] and named) or
-                (r[1] == 'AssertionError' and 'nested path' in r[2] and (case['override'] or named)))
+            # a valid reconfiguration call must not raise
             fails.append(('monitor', 'reconfiguration-raises', {'step': k, 'op': op, 'error': r[1:]},
-                          KNOWN_WRAPPER_SIG if wrapper else 'C11.nested.reconfiguration-raises'))
+                          'C11.nested.reconfiguration-raises'))
             break
         try:
             fs = check_step(run, op, pending)
@@ -728,10 +762,7 @@ def run_case(case):
             fs = [('monitor', 'introspection-raised', {'error': type(e).__name__, 'where': traceback.format_exc()[-700:]},
                    'C11.nested.introspection-raised')]
         if fs:
-            quiet = all(sig in (KNOWN_TRIGGERS_SIG, KNOWN_TRANSITIONS_SIG) for _k, _w, _d, sig in fs)
             for kind, what, details, sig in fs[:3]:
-                if not any(f[3] == sig and sig in (KNOWN_TRIGGERS_SIG, KNOWN_TRANSITIONS_SIG) for f in fails):
-                    fails.append((kind, what, dict(details, step=k, op=op), sig))
-            if not quiet:
-                break       # (the two query findings change nothing: the history goes on)
+                fails.append((kind, what, dict(details, step=k, op=op), sig))
+            break
     return fails, facts, pending
